@@ -29,3 +29,12 @@ contract('calendar:timegm', trusted=True, pure=True, params=['tuple'], returns='
          types={'tuple': "Union(Int, Inst('time:struct_time'))"},
          requires=["typed(tuple, \"Inst('time:struct_time')\")"],
          ensures=['result == st_epoch(tuple)'], assumptions=['E-CLOCK'])
+
+
+# E-REGEX: compiled regular expressions (module- or class-level constants) ------------------------------------
+ghost('pattern_matches', ['Val', 'Val', 'Val'], 'Bool')     # (pattern object, how: 'match'|'search'|'fullmatch', string)
+declare_class('re:Pattern', fields={}, methods={'match': 're:Pattern.match', 'search': 're:Pattern.search', 'fullmatch': 're:Pattern.fullmatch'})
+for _how in ('match', 'search', 'fullmatch'):
+    contract('re:Pattern.' + _how, trusted=True, pure=True, params=['self', 'string'], returns='Any',
+             ensures=['truthy(result) == pattern_matches(self, %r, string)' % _how], raises={'TypeError': 'not (is_str(string) or is_bytes(string))'},
+             assumptions=['E-REGEX'], note='whether a compiled pattern matches is an uninterpreted fact of (pattern, string)')
